@@ -78,21 +78,20 @@ def split_statements(m: str, lo: int, hi: int):
     return res
 
 
-def find_statement(m: str, lo: int, hi: int, prefix: str):
-    """Depth-first search for a statement whose normalised text starts with `prefix` (normalised).
-    Returns (start, end)."""
+def find_statements(m: str, lo: int, hi: int, prefix: str):
+    """All statements (document order, nested blocks included) whose normalised text starts with `prefix`."""
     want = norm_ws(prefix)
+    res = []
     for (s, e) in split_statements(m, lo, hi):
         if norm_ws(m[s:e]).startswith(want):
-            return s, e
+            res.append((s, e))
+            continue
         # descend into nested blocks
         i = s
         while i < e:
             if m[i] == '{':
                 j = match_close(m, i)
-                r = find_statement(m, i + 1, j, prefix)
-                if r:
-                    return r
+                res.extend(find_statements(m, i + 1, j, prefix))
                 i = j + 1
             elif m[i] in '([':
                 # closures / struct literals in call arguments may contain blocks
@@ -101,16 +100,20 @@ def find_statement(m: str, lo: int, hi: int, prefix: str):
                 while k < j:
                     if m[k] == '{':
                         jj = match_close(m, k)
-                        r = find_statement(m, k + 1, jj, prefix)
-                        if r:
-                            return r
+                        res.extend(find_statements(m, k + 1, jj, prefix))
                         k = jj + 1
                     else:
                         k += 1
                 i = j + 1
             else:
                 i += 1
-    return None
+    return res
+
+
+def find_statement(m: str, lo: int, hi: int, prefix: str, nth: int = 1):
+    """The nth (1-based) statement whose normalised text starts with `prefix`. Returns (start, end) or None."""
+    r = find_statements(m, lo, hi, prefix)
+    return r[nth - 1] if len(r) >= nth else None
 
 
 LOOP_RE = re.compile(r'(?<![A-Za-z0-9_\'])(for|while|loop)\b')
@@ -484,11 +487,13 @@ def render_fn(repo: Repo, fb: FnBlock, rules: Counter, info: dict, canary: bool 
                 ins.append((st[-1][0], text + '\n'))
             else:
                 ins.append((len(body), '\n' + text))
-        elif w[0] in ('after', 'before'):
-            r = find_statement(m, 0, len(m), w[1])
+        elif w[0].split('#')[0] in ('after', 'before'):
+            # `after#k <stmt>`: the k-th statement starting with that text
+            kind, _, nth = w[0].partition('#')
+            r = find_statement(m, 0, len(m), w[1], int(nth) if nth else 1)
             if not r:
-                raise LostAnchor(f'statement `{w[1]}` of fn {fb.name} not found')
-            ins.append((r[1] if w[0] == 'after' else r[0], '\n' + text + '\n'))
+                raise LostAnchor(f'statement `{w[1]}` ({w[0]}) of fn {fb.name} not found')
+            ins.append((r[1] if kind == 'after' else r[0], '\n' + text + '\n'))
         elif w[0] == 'loop':
             n, pos = w[1].split()
             n = int(n)
@@ -689,7 +694,7 @@ def build_unit(template_path: str, repo_root: str, verif_root: str, canary: bool
         elif st.startswith('//@assumed '):
             # contract of a function that is proved in another unit: same directive block (signature rewrites + //@spec), body dropped
             src_tpl, fname = [x.strip() for x in st[len('//@assumed '):].split('|')]
-            tl = expand(os.path.join(verif_root, src_tpl))
+            tl = open(os.path.join(verif_root, src_tpl)).read().split('\n')   # the file itself, not its includes
             hit = [k for k, l in enumerate(tl) if l.strip().startswith('//@fn ') and
                    (lambda ps: ps[2] == fname or ('as=' + fname) in ps[3:])([x.strip() for x in l.strip()[len('//@fn '):].split('|')])]
             if len(hit) != 1:
